@@ -2,7 +2,7 @@
 from ..core import (Body, callee_name, op_place, op_const, proj_path, as_cmp, as_pred, leaf_s, OK, F0, F1, SOME, ELEM, SWAP, norm)
 from ..guards import root_ids, same_root, const_int, body_of, def_call
 from ..pipeline import Pipeline, Stages, fld, V_LINK, V_LAYOUT
-from . import shared, subl
+from . import shared, subl, keys
 
 EXPLANATION = (
     "On the path-sensitive REGION super-graph of in_toto_verify. The verified-link set of a step is the map that "
@@ -17,11 +17,11 @@ EXPLANATION = (
     "The core of Metablock::verify (C04 D1-D5) is re-checked because it is what D3 relies on.")
 DECIDED = ["D1 authorisation by the step's own key list", "D2 key table lookup by the filing key id", "D3 valid signature before counting",
            "D4 threshold on the verified set", "D5 at least one link", "D6 file name / signature key-id prefix agreement",
-           "D7 only verified evidence flows on"]
+           "D7 only verified evidence flows on", "D8 the layout key table maps an id only to the key with that intrinsic id (parse-time filter, builder)"]
 UNDECIDED = ["parsing of file names for adversarial step names", "glob matching"]
 TRUSTED = ["ring signature verification", "glob returns only names matching <step>.????????.link"]
 ASSUMPTIONS = []
-FLOORS = {"C02/D1": 1, "C02/D2": 1, "C02/D3": 3, "C02/D4": 1, "C02/D5": 1, "C02/D6": 2, "C02/D7": 1, "C04/D4": 3}
+FLOORS = {"C02/D1": 1, "C02/D2": 1, "C02/D3": 3, "C02/D4": 1, "C02/D5": 1, "C02/D6": 2, "C02/D7": 1, "C02/D8": 2, "C04/D4": 3}
 
 MEMBER_CALLS = {"core::slice::contains", "std::vec::Vec::contains", "std::collections::HashSet::contains",
                 "std::collections::BTreeSet::contains", "std::collections::HashMap::contains_key",
@@ -234,4 +234,6 @@ def run(ctx):
                     eq.append(e)
         ctx.inst("C02/D6", "candidate filed only if prefix(signature key id) == short id of the file name", bool(eq),
                  ("dominating equality on edge(s) %s" % eq) if eq else "no dominating `KeyId::prefix(sig.key_id()) == <id parsed from the file name>` fact", ct["at"])
+    # ---- D8 the key table the lookups use maps an id only to the key with that intrinsic id
+    keys.check_key_table_filter(ctx, "C02/D8")
     shared.check_threshold_core(ctx, prefix="C04")
